@@ -140,7 +140,7 @@ theorem chainsOf_sem (S : Schema) (chains : List Chain) (F : List String) (h : c
           obtain ⟨hid, r, hr, hrk, hsg, f, hf, himpl⟩ := hsem.sound k v hget c hcp
           exact ⟨hclosed k v hget c hcp, r, hperm.mem_iff.mp hr, by rw [hid, hrk], hsg, f, expandsDef_mono (S := ⟨srules⟩) (S' := ⟨renameTemps S.rules 1⟩) (fun r hr => hperm.mem_iff.mp hr) hf, himpl⟩
         · obtain ⟨r, hr, hrq, hdef⟩ := expands_iff.mp (hcongr.mpr hf)
-          obtain ⟨chains, hch, c, hc, himpl⟩ := hsem.complete r hr f hdef
+          obtain ⟨chains, hch, c, hc, _, himpl⟩ := hsem.complete r hr f hdef
           refine ⟨c, mem_allChains.mpr ⟨_, PyDict.mem_of_get? _ _ _ hch, hc⟩, ?_, himpl⟩
           rw [(hsem.sound _ _ hch c hc).1, hrq]
 
